@@ -154,6 +154,24 @@ CLAIMED = {
              "an attached ElementTree node).",
         technique="executable Coq models of both back ends validated differentially against the real wrappers + "
                   "document-level differential; Coq invariant proof (induction over operation sequences)"),
+    "C05": dict(
+        category="proof",
+        text="Theorem (stream layer): for EVERY character sequence and EVERY segmentation of it into non-empty reads "
+             "(one-character reads, CR LF and surrogate pairs split across reads; the chunk size is such a "
+             "segmentation) the characters delivered by char() are exactly the newline-normalised input "
+             "(invariant 'delivered ++ still-to-come = norm(input)' over refills, induction; normalisation "
+             "distributes over any cut that does not separate CR from LF). Model of readChunk/char/charsUntil/unget/"
+             "position/error count tied to the real HTMLUnicodeInputStream by exact-agreement correspondence on "
+             "client operation sequences over short-reading sources and chunk sizes 1..64. End-to-end: the same "
+             "characters parsed from str / StringIO / short reads / chunk sizes {1,2,3,5,7,16} / bytes, BytesIO and "
+             "non-seekable byte streams in 5 encodings must give the same tree and error list. PARTIAL: positions, "
+             "charsUntil and unget are modelled and validated but their segmentation independence is not a theorem; "
+             "decoders are not modelled. Three fixes in /repo, one known finding (invalid-codepoint positions).",
+        design_ref="DESIGN.md 3 C05, A.3",
+        note="source modelled as the list of future read() results; codecs stream readers trusted to be "
+             "segmentation independent (exercised by the end-to-end run).",
+        technique="Coq proof (invariant over chunk refills, induction) + differential correspondence on operation "
+                  "sequences + end-to-end delivery differential"),
 }
 
 PENDING_REASON = "not yet built in this round (planned: Coq model + theorems per DESIGN.md section 3); no check is registered, so nothing is claimed"
